@@ -1,5 +1,6 @@
-"""C01, tangle layer: the first layer of the v2 engine (yui-link Path, TngComp / Tng of kh/internal/v2/tng.rs) inside the
-Coq model (Model/Tng.v, theorems Properties/C01Tng.v) with an exact correspondence run against the real code.
+"""C01, tangle layer: the first layer of the v2 engine (yui-link Path, TngComp / Tng of kh/internal/v2/tng.rs, and the numeric
+bookkeeping of CobComp::connect / Cob::connect in cob.rs) inside the Coq model (Model/Tng.v, Model/TngCob.v, theorems
+Properties/C01Tng.v) with an exact correspondence run against the real code.
 
 Used by vlib/c01.py:   obl_part, corr_part = c01tng.run_part(ctx)
   obl_part  = C.coq_obligations("C01", [...ExtractC01Tng.vo], more_props=["C01Tng"]) restricted to the tangle files
@@ -34,9 +35,17 @@ RULE = ("tangle layer (Model/Tng.v against the real yui-link Path and v2 TngComp
         "range of 3..7, repeated labels, one-label arcs, empty arcs, the empty circle arc[e]+arc[e] and the sort panics it causes, "
         "Tng::new of connectable components and the index shift of append_arc, unresolved crossings; panic = P in both); "
         "pc = pairs of paths: is_connectable, connect both ways, ==, !=, cmp, contains, min_edge. "
+        "Cobordism bookkeeping (Model/TngCob.v against the real cob.rs): cb = the saddles CobComp::new(from_resolved(x.resolved(0)), "
+        "from_resolved(x.resolved(1)), g, dots) (= sdl_from when plain) of 0-2 crossings and the cylinders (= Cob::id when plain) "
+        "over the V/H resolutions of the other crossings of a random diagram (or of a prefix), 1/4 of them with genus <= 2 and "
+        "<= 2+2 dots, sometimes a closed component, joined one after the other by Cob::connect (= connected): after every step all "
+        "components (src and tgt RAW, genus, dots, nbdr_comps, euler_num, deg) and Cob::euler_num / deg / nbdr_comps / "
+        "is_invertible / is_closed, at the end Cob::inv; cx = CobComp::connect called directly on two components (also "
+        "non-connectable ones: the assert on the shared end points is a P in both); nbdr_comps iterates hash sets: its count "
+        "is order independent on these well-formed components (three fresh processes gave identical output). "
         "non-trivial = some printed component has >= 3 labels; distinct = distinct case lines")
 
-MARKERS = ("FAIL", "?connected", "?partial_cmp", "BAD-", "P-CASE", "circ=P")
+MARKERS = ("FAIL", "?connected", "?partial_cmp", "?ctor", "?dots", "BAD-", "P-CASE", "circ=P")
 
 
 def nontrivial(case, impl):
@@ -60,7 +69,7 @@ def equal(case, impl, model):
 
 
 def _own_files(files):
-    return [f for f in files if re.search(r"(Model/Tng\.v|Proofs/TngP[A-Za-z0-9]*\.v|Properties/C01Tng\.v|Extract/ExtractC01Tng\.v)$", f)]
+    return [f for f in files if re.search(r"(Model/Tng(Cob)?\.v|Proofs/TngP[A-Za-z0-9]*\.v|Properties/C01Tng\.v|Extract/ExtractC01Tng\.v)$", f)]
 
 
 def obligations():
@@ -99,7 +108,7 @@ def replay_part(ctx, cases):
     return correspondence(ctx.tier, ctx.seed, replay_cases=cases)
 
 
-KINDS = ("pc", "kc", "kp", "kt", "cn", "wf", "mf")
+KINDS = ("pc", "kc", "kp", "kt", "cn", "wf", "mf", "cb", "cx")
 
 
 def merge(obl, corr, obl_part, corr_part):
